@@ -7,7 +7,7 @@ from ..loader import AnalysisError, dotted, norm, walk_no_defs
 from ..minieval import MiniEval, Obj, Raised, Unsupported
 from ..paths import FP, PE, Exc, Executor, Out, Semantics
 from ..report import RuleReport
-from ..rules.common import FlagSem, rule_chain, run_flags
+from ..rules.common import FlagSem, _bindings, rule_chain, run_flags, through_locals
 from ..rules.frames import (POPPERS, PUSHERS, classify_exc, pushing_functions, run_depth, stack_op)
 
 LEVEL = 'other'
@@ -395,13 +395,31 @@ def r2_cst(a, tier):
             rep.fail(f'tatsu.contexts.state.ParseState.{m}', f'{m}-binding', f'ParseState.{m} does not store self.last_node '
                      f'through AST.{target}', fn.loc if fn else '')
     # ---- structural companions ---------------------------------------------------------
+    import contextlib
+
+    from ..minieval import Unsupported
+    from ..modelinterp import Hook, ModelInterp, Stub
     for q in (f'{CTX}.closure', f'{CTX}.positive_closure'):
+        # interpreted on a stand-in context: the element matches (cst := e1), repeat() adds e2; the result must be a
+        # closedlist holding [e1, e2] and be the scope's cst when the scope ends
         fn = a.p.func(q)
-        ok = _returns_closedlist_of_cst(fn)
-        rep.add({'fn': q, 'returns_closedlist(self.cst)_and_stores_it': ok})
+        e1, e2 = Elem(41), Elem(42)
+        me = Stub(CTX, cst=None)
+        nullctx = Hook(lambda *_a, **_k: contextlib.nullcontext())
+        me._attrs.update(statescope=nullctx, optional=nullctx, option=nullctx,
+                         expcall=Hook(lambda *_a, me=me: me._attrs.__setitem__('cst', e1)),
+                         repeat=Hook(lambda *_a, me=me, **_k: me._attrs.__setitem__('cst', [*me._attrs['cst'], e2])))
+        it = ModelInterp(a, {'closedlist': Hook(CL)})
+        try:
+            got = it.call_fn(fn, [me, Hook(lambda *_a: None)])
+        except Unsupported as e:
+            raise AnalysisError(f'cannot interpret {q}: {e}') from e
+        ok = isinstance(got, CL) and list(got) == [e1, e2] and me._attrs.get('cst') is got
+        rep.add({'fn': q, 'result': _shape(got), 'scope_cst_is_result': me._attrs.get('cst') is got, 'ok': ok})
         if not ok:
-            rep.fail(q, 'closure-not-closed', 'the repetition result is not built by closedlist(self.cst) and stored as the '
-                     'scope cst before return: a closure would be spliced into the enclosing sequence', fn.loc)
+            rep.fail(q, 'closure-not-closed', f'with a first element e41 and repeat() adding e42 the repetition returns {_shape(got)} and leaves '
+                     f'the scope cst {_shape(me._attrs.get("cst"))}; required: the same closedlist C[e41,e42] (an open list would be spliced '
+                     f'into the enclosing sequence)', fn.loc)
     fn = a.p.func(f'{CTX}.empty')
     ok = any(isinstance(n, ast.Call) and dotted(n.func) == 'closedlist' for n in walk_no_defs(fn.node)) and any(
         isinstance(n, ast.Call) and norm(n.func) == 'self.state.append' for n in walk_no_defs(fn.node))
@@ -410,13 +428,13 @@ def r2_cst(a, tier):
         rep.fail(fn.qualname, 'empty-not-closed', 'empty closure does not append a closedlist([])', fn.loc)
     fn = a.p.func(f'{ENGINE}.func_call')
     rets = [n for n in walk_no_defs(fn.node) if isinstance(n, ast.Return)]
-    ok = bool(rets) and all(r.value is not None and norm(r.value) in ('self.state.fold()', 'self.states.fold()') for r in rets)
+    ok = bool(rets) and all(r.value is not None and norm(through_locals(fn, r.value)) in ('self.state.fold()', 'self.states.fold()') for r in rets)
     rep.add({'fn': fn.qualname, 'returns_fold': ok})
     if not ok:
         rep.fail(fn.qualname, 'func_call-fold', 'func_call does not return the folded state of the rule body', fn.loc)
     fn = a.p.func(f'{ENGINE}.call')
     appends = [n for n in walk_no_defs(fn.node) if isinstance(n, ast.Call) and norm(n.func) in ('self.state.append', 'self.state.extend', 'self.states.state.append')]
-    ok = len(appends) == 1 and norm(appends[0].func).endswith('.append') and norm(appends[0].args[0]) == 'result.node'
+    ok = len(appends) == 1 and norm(appends[0].func).endswith('.append') and _is_result_node(fn, appends[0].args[0])
     rep.add({'fn': fn.qualname, 'appends_rule_result_as_one_element': ok})
     if not ok:
         rep.fail(fn.qualname, 'call-append', 'call() does not add the rule result with state.append(result.node) '
@@ -431,6 +449,8 @@ def r2_cst(a, tier):
         [None, ea], [ea, [eb, ec]], [CL([ea]), CL([eb])], [ea, ()],
     ]
     sev = MiniEval({**ev.globals, 'Group': type('Group', (), {}), 'isinstance': isinstance})
+    for name, f in a.p.module('tatsu.peg.syntax').functions.items():  # module-level helpers of Sequence._parse
+        sev.globals.setdefault(name, ('<func>', f.node, {}))
     for vals in seq_cases:
         elems = [Obj(stub_methods, value=v) for v in vals]
         me = Obj({'_add_defined': stub[1]}, sequence=elems)
@@ -481,6 +501,15 @@ def _run_ast_set(ev, amethods, mname, store: dict, node):
     sub = MiniEval(dict(ev.globals), calls={'super': lambda: '<super>'}, methods=methods)
     sub.call_function(amethods[mname], [o, 'k', node])
     return data.get('k')
+
+
+def _is_result_node(fn, e) -> bool:
+    """e is <r>.node where <r> is the local bound to the result of recursive_call/rule_call (possibly through a dispatch local)"""
+    e = through_locals(fn, e)
+    if not (isinstance(e, ast.Attribute) and e.attr == 'node' and isinstance(e.value, ast.Name)):
+        return False
+    binds = _bindings(fn, e.value.id)
+    return bool(binds) and all(b is not None and isinstance(b, ast.Call) for b in binds)
 
 
 def _returns_closedlist_of_cst(fn) -> bool:
